@@ -67,7 +67,7 @@ def run_programs(ctx, programs, what, sigfn=default_sig, nontrivial=None, batch=
         pid, idx = (eid[:-5] if eid.endswith(':snap') else eid).rsplit(':', 1)
         prog = dict(byid[pid])
         prog['ops'] = prog['ops'][:int(idx) + 1]
-        ev = [e for e in evmap[pid] if e['id'] == eid][0]
+        ev = dict([e for e in evmap[pid] if e['id'] == eid][0], verdict=verdict)
         ctx.deviation(sigfn(prog, ev),
                       '%s: program %s step %s %s observed %s, specification expects %s' % (
                           what, pid, idx, _brief(ev), _brief_val(ev.get('res')), _brief_val(exp)),
